@@ -6,6 +6,7 @@ import (
 	"fmt"
 	"math"
 	"reflect"
+	"sort"
 	"strings"
 
 	"go.uber.org/thriftrw/internal/zzsim/gen/registry"
@@ -466,9 +467,10 @@ func goEqual(a, b reflect.Value) bool {
 		if a.IsNil() != b.IsNil() || a.Len() != b.Len() {
 			return false
 		}
-		for _, k := range a.MapKeys() {
-			bv := b.MapIndex(k)
-			if !bv.IsValid() || !goEqual(a.MapIndex(k), bv) {
+		// by sorted entries rather than by lookup: a NaN key cannot be looked up
+		ae, be := sortedEntries(a), sortedEntries(b)
+		for i := range ae {
+			if !goEqual(ae[i][0], be[i][0]) || !goEqual(ae[i][1], be[i][1]) {
 				return false
 			}
 		}
@@ -483,6 +485,16 @@ func goEqual(a, b reflect.Value) bool {
 		return a.String() == b.String()
 	}
 	return reflect.DeepEqual(a.Interface(), b.Interface())
+}
+
+func sortedEntries(m reflect.Value) [][2]reflect.Value {
+	var out [][2]reflect.Value
+	it := m.MapRange()
+	for it.Next() {
+		out = append(out, [2]reflect.Value{it.Key(), it.Value()})
+	}
+	sort.SliceStable(out, func(i, j int) bool { return simrt.LessReflect(out[i][0], out[j][0]) })
+	return out
 }
 
 // goDiff explains a difference that the serialised forms do not show.
@@ -650,7 +662,27 @@ func RunC04(cfg simrt.Config, o world.Opts) *world.Result {
 		} else {
 			desc = "valid"
 		}
-		switch simrt.ChoiceBias("c04.input", 3, 0.3) {
+		inputKind := simrt.ChoiceBias("c04.input", 3, 0.3)
+		if ok && simrt.Flip("c04.long-list", 0.0004) {
+			// a list or set of scalars with really more than 2^20 elements
+			for i, f := range v.Fields {
+				if (f.V.T == ref.TList || f.V.T == ref.TSet) && f.V.VT != ref.TStruct && f.V.VT != ref.TList && f.V.VT != ref.TSet && f.V.VT != ref.TMap && f.V.VT != ref.TBinary {
+					n := (1 << 20) + 1 + ch("c04.long-list-extra", 3)
+					long := ref.Val{T: f.V.T, VT: f.V.VT, Items: make([]ref.Val, n)}
+					for k := range long.Items {
+						long.Items[k] = ref.Val{T: f.V.VT, I: int64(k % 2)}
+					}
+					nv := ref.Val{T: ref.TStruct, Fields: append([]ref.Field{}, v.Fields...)}
+					nv.Fields[i].V = long
+					v = nv
+					inputKind = 0
+					desc += "+long-list"
+					res.Count("c04.inputs-with-a-list-of-more-than-2^20-elements", 1)
+					break
+				}
+			}
+		}
+		switch inputKind {
 		case 1:
 			n := 1 + ch("c04.evolutions", 3)
 			for i := 0; i < n; i++ {
